@@ -100,6 +100,18 @@ def definitional(rng):
     out.append(("finding:deepnest:expression parentheses", head + "let f () =\n  " + "(" * N + "1" + ")" * N + "\n"))
     out.append(("finding:deepnest:type parentheses", head + "let f (a:" + "(" * N + "int" + ")" * N + ") =\n  1\n"))
     out.append(("finding:deepnest:generic type arguments", head + "type Box<T> = {V: T}\n\nlet f (a:" + "Box<" * N + "int" + ">" * N + ") =\n  1\n"))
+    # bytes that are not UTF-8 where the scanner accepts any byte (comments, string and raw string literals), followed LATER by an ordinary
+    # positioned error: the diagnostic has to be computed over those bytes (written through surrogateescape: chr(0xdc00 + b) is the byte b)
+    raw = lambda *bs: "".join(chr(0xdc00 + b) if b >= 0x80 else chr(b) for b in bs)
+    junk = [raw(0x80), raw(0xbf, 0xbf), raw(0xc3), raw(0xe3, 0x81), raw(0xf8, 0x88), raw(0xff, 0xfe), raw(0x93, 0xfa, 0x96, 0x7b)]
+    errs = [("unknownvar", "let g () =\n  undefinedName 1\n"), ("syntax", "let g () =\n  (1 +\n"),
+            ("nonexh", "type U =\n| A\n| B\n\nlet g (u:U) =\n  match u with\n  | A -> 1\n"), ("none", "let g () =\n  2\n")]
+    for ji, j in enumerate(junk):
+        places = [("linecomment", "// c " + j + " c\nlet f () =\n  1\n\n"), ("blockcomment", "/* c " + j + "\n c */\nlet f () =\n  1\n\n"),
+                  ("string", "let f () =\n  \"s" + j + "s\"\n\n"), ("rawstring", "let f () =\n  `r" + j + "\nr`\n\n")]
+        for pn, ptxt in places:
+            for en, etxt in errs:
+                out.append(("nonutf8:%d:%s:%s" % (ji, pn, en), head + ptxt + etxt))
     out.append(("longstring", head + "let f () =\n  \"" + "x" * 200000 + "\"\n"))
     out.append(("longident", head + "let " + "f" * 100000 + " () =\n  1\n"))
     out.append(("binary", bytes(range(256)).decode("latin1")))
